@@ -470,6 +470,31 @@ def _rank(cols):
     return rk
 
 
+def respell(text, rng, equalities=False):
+    """the same system in another legal spelling: blanks around / * + -, and == for = in equalities"""
+    out = []
+    for line in text.split('\n'):
+        m = _CMP.search(line.replace('**', '\0\0'))
+        if rng.random() < .7:
+            for op in '/*':
+                if rng.random() < .6:
+                    line = re.sub(r'(?<![*])\s*%s\s*(?![*])' % re.escape(op), ' %s ' % op, line)
+        if equalities and rng.random() < .5:
+            line = re.sub(r'(?<![<>=!])=(?!=)', '==', line)
+        out.append(line)
+    return '\n'.join(out)
+
+
+def gen_spelled(family, seed):
+    """systems of the rational / linear / solve families written with blanks around the operators and `==` for `=`"""
+    rng = random.Random(seed * 31 + 7)
+    base = {'simplify-rational-spelled': 'simplify-rational', 'simplify-linear-spelled': 'simplify-linear', 'solve-spelled': 'solve'}[family]
+    spec = gen_program(base, seed)
+    spec['family'] = family
+    spec['text'] = respell(spec['text'], rng, equalities=(base == 'solve'))
+    return spec
+
+
 def gen_matrix(family, seed):
     rng = random.Random(seed)
     n = rng.choice([1, 2, 3, 4, 12])
@@ -940,15 +965,18 @@ def _work(spec):
 COUNTS = {'quick': {'simplify-linear': 24, 'simplify-opposed': 8, 'simplify-rational': 12, 'simplify-product': 4,
                     'solve': 12, 'linear_symbolic': 24, 'symbolic_bounds': 24,
                     'simplify-boundary': 48, 'simplify-shared-sign': 24, 'merge': 147 + 80,
-                    'simplify-constants': 64, 'solve-constants': 16, 'solve-literals': 24},
+                    'simplify-constants': 64, 'solve-constants': 16, 'solve-literals': 24,
+                    'simplify-rational-spelled': 24, 'simplify-linear-spelled': 12, 'solve-spelled': 16},
           'thorough': {'simplify-linear': 680, 'simplify-opposed': 70, 'simplify-rational': 300,
                        'simplify-product': 50, 'solve': 400, 'linear_symbolic': 400, 'symbolic_bounds': 400,
                        'simplify-boundary': 400, 'simplify-shared-sign': 200, 'merge': 147 + 1200,
-                       'simplify-constants': 600, 'solve-constants': 150, 'solve-literals': 300}}
+                       'simplify-constants': 600, 'solve-constants': 150, 'solve-literals': 300,
+                       'simplify-rational-spelled': 300, 'simplify-linear-spelled': 150, 'solve-spelled': 200}}
 GENS = {'linear_symbolic': gen_matrix, 'symbolic_bounds': gen_matrix, 'simplify-boundary': gen_boundary,
         'simplify-shared-sign': gen_shared_sign, 'simplify-constants': gen_constants,
-        'solve-constants': gen_constants, 'solve-literals': gen_solve_literals}
-LATE_FAMILIES = ('solve-literals',)
+        'solve-constants': gen_constants, 'solve-literals': gen_solve_literals,
+        'simplify-rational-spelled': gen_spelled, 'simplify-linear-spelled': gen_spelled, 'solve-spelled': gen_spelled}
+LATE_FAMILIES = ('solve-literals', 'simplify-rational-spelled', 'simplify-linear-spelled', 'solve-spelled')
 
 
 def run(tier='quick', seed=0):
